@@ -378,6 +378,16 @@ pub fn judge_cli(o: &cli::CliOut, what: &str, out: &mut Out) {
 
 pub const KIND_OPTIONS: &str = "\u{1}OPTIONS";
 
+/// the binary runs under the getrandom shim with a seed that is a function of the file: the hash order of the
+/// child process is then owned too (a panic that depends on it reproduces on replay), and differs from file to file
+fn text_seed(t: &str) -> u64 {
+    let mut h: u64 = 0xcbf29ce484222325;
+    for b in t.bytes() {
+        h = (h ^ b as u64).wrapping_mul(0x100000001b3);
+    }
+    h >> 1
+}
+
 impl StateCheck for C16 {
     fn check(&self, text: &str, _l: &[Line], out: &mut Out) {
         if text.starts_with(KIND_OPTIONS) {
@@ -395,9 +405,9 @@ impl StateCheck for C16 {
         let first_of_class = self.classes.lock().unwrap().insert(format!("{kind}:{class}"));
         if cli::available() && (self.cli_every_state || first_of_class || class.starts_with("panic")) {
             let o = if kind == "factors" {
-                cli::run(&cli::sv(&["-c", "@c.csv", "-f", "@f.csv"]), &[("c.csv", FIXED_BUILDING.as_bytes()), ("f.csv", body.as_bytes())], &[], None, Duration::from_secs(10))
+                cli::run(&cli::sv(&["-c", "@c.csv", "-f", "@f.csv"]), &[("c.csv", FIXED_BUILDING.as_bytes()), ("f.csv", body.as_bytes())], &[], Some(text_seed(body)), Duration::from_secs(10))
             } else {
-                cli::run(&cli::sv(&["-c", "@c.csv", "-l", "PENINSULA", "--json", "@o.json", "--xml", "@o.xml"]), &[("c.csv", body.as_bytes())], &[], None, Duration::from_secs(10))
+                cli::run(&cli::sv(&["-c", "@c.csv", "-l", "PENINSULA", "--json", "@o.json", "--xml", "@o.xml"]), &[("c.csv", body.as_bytes())], &[], Some(text_seed(body)), Duration::from_secs(10))
             };
             out.regime("cli_run");
             judge_cli(&o, &format!("on the {kind} file"), out);
@@ -432,24 +442,24 @@ pub fn options_leg(out: &mut Out) {
     let base = "CONSUMO, ILU, ELECTRICIDAD, 5, 1\nPRODUCCION, EL_INSITU, 3, 3\n";
     for opt in ["-a", "-k"] {
         for t in MENU.iter().chain(["1e-4", "0.001", "0.0011", "1", "0.5", "1.0000001", "-0.0", "１"].iter()) {
-            let o = cli::run(&cli::sv(&["-c", "@c.csv", "-l", "PENINSULA", opt, t]), &[("c.csv", base.as_bytes())], &[], None, Duration::from_secs(10));
+            let o = cli::run(&cli::sv(&["-c", "@c.csv", "-l", "PENINSULA", opt, t]), &[("c.csv", base.as_bytes())], &[], Some(5), Duration::from_secs(10));
             judge_cli(&o, &format!("{opt} {t:?}"), out);
         }
     }
     for t in ["NaN", "inf", "abc", "", "1e39", "-1"] {
-        let o = cli::run(&cli::sv(&["-c", "@c.csv", "-l", "PENINSULA", "--red1", t, "1", "0.5"]), &[("c.csv", "CONSUMO, CAL, RED1, 5\n".as_bytes())], &[], None, Duration::from_secs(10));
+        let o = cli::run(&cli::sv(&["-c", "@c.csv", "-l", "PENINSULA", "--red1", t, "1", "0.5"]), &[("c.csv", "CONSUMO, CAL, RED1, 5\n".as_bytes())], &[], Some(5), Duration::from_secs(10));
         judge_cli(&o, &format!("--red1 {t:?} 1 0.5"), out);
     }
     // invalid UTF-8, empty and binary files; missing files; unwritable outputs
     let weird: Vec<(&str, Vec<u8>)> = vec![("invalid_utf8", vec![0x43, 0x4f, 0xff, 0xfe, 0x2c, 0x31, 0x0a]), ("empty", vec![]), ("nul", vec![0; 64]), ("only_newlines", b"\n\n\n".to_vec()), ("latin1", b"CONSUMO, ILU, ELECTRICIDAD, 1 # a\xf1o\n".to_vec())];
     for (n, b) in &weird {
-        let o = cli::run(&cli::sv(&["-c", "@c.csv", "-l", "PENINSULA"]), &[("c.csv", b)], &[], None, Duration::from_secs(10));
+        let o = cli::run(&cli::sv(&["-c", "@c.csv", "-l", "PENINSULA"]), &[("c.csv", b)], &[], Some(5), Duration::from_secs(10));
         judge_cli(&o, &format!("components file {n}"), out);
-        let o = cli::run(&cli::sv(&["-c", "@c.csv", "-f", "@f.csv"]), &[("c.csv", base.as_bytes()), ("f.csv", b)], &[], None, Duration::from_secs(10));
+        let o = cli::run(&cli::sv(&["-c", "@c.csv", "-f", "@f.csv"]), &[("c.csv", base.as_bytes()), ("f.csv", b)], &[], Some(5), Duration::from_secs(10));
         judge_cli(&o, &format!("factors file {n}"), out);
     }
     for args in [vec!["-c", "/nonexistent/x.csv", "-l", "PENINSULA"], vec!["-c", "@c.csv"], vec![], vec!["-c", "@c.csv", "-l", "MARTE"], vec!["-c", "@c.csv", "-l", "PENINSULA", "--json", "/nonexistent/dir/o.json"], vec!["-c", "@c.csv", "-l", "PENINSULA", "-f", "@c.csv"], vec!["-L"], vec!["-c", "@c.csv", "-l", "PENINSULA", "-vvv", "--load_matching"]] {
-        let o = cli::run(&cli::sv(&args), &[("c.csv", base.as_bytes())], &[], None, Duration::from_secs(10));
+        let o = cli::run(&cli::sv(&args), &[("c.csv", base.as_bytes())], &[], Some(5), Duration::from_secs(10));
         judge_cli(&o, &format!("{args:?}"), out);
     }
 }
@@ -499,6 +509,15 @@ pub fn run(ctx: &Ctx) -> i32 {
         explore(ctx, "token soups: one line of <= 5 tokens over 14 tokens", Soup { toks: toks.iter().map(|s| s.to_string()).collect(), max: 5 }, light.clone(), shared.clone());
         let _ = al;
     }
+    // valid constructions: "every text" includes every valid file, and valid but unusual files reach code that
+    // faults of the shipped files do not (several systems with auxiliaries, idle systems, mixed EPB / non-EPB
+    // systems, cogeneration on several fuels). The construction alphabets of the other checks, judged for panics
+    // only (library pipeline: read, evaluate with both load-matching modes, all output formats; CLI per class).
+    let q = ctx.quick();
+    explore(ctx, &format!("valid constructions: AUX systems (alphabet of C06), depth<={}", if q { 5 } else { 6 }), Wide { alphabet: super::c06::aux_alphabet(), bases: crate::alpha::bases(false), max_add: if q { 5 } else { 6 }, repeat: false }, light.clone(), shared.clone());
+    explore(ctx, &format!("valid constructions: ambient / solar systems (alphabet of C05), depth<={}", if q { 2 } else { 3 }), Wide { alphabet: super::c05::env_alphabet(2), bases: crate::alpha::bases(false), max_add: if q { 2 } else { 3 }, repeat: false }, light.clone(), shared.clone());
+    explore(ctx, &format!("valid constructions: AUX/ENV systems and metadata (alphabet of C10), depth<={}", if q { 3 } else { 4 }), Wide { alphabet: super::c10::aux_env_letters(), bases: crate::alpha::bases(false), max_add: if q { 3 } else { 4 }, repeat: false }, light.clone(), shared.clone());
+    explore(ctx, &format!("valid constructions: FLOW, depth<={}", if q { 2 } else { 3 }), Wide { alphabet: crate::alpha::flow(2, &[0, 100, 300], crate::alpha::Rich::Wide), bases: crate::alpha::bases(false), max_add: if q { 2 } else { 3 }, repeat: false }, light.clone(), shared.clone());
     // numeric options and environment faults (one state, so that it is replayable like any other)
     explore(ctx, "numeric options in-process and on the command line; unreadable / non-UTF-8 / missing files", Layered { slots: vec![vec![Letter::one(Line::Raw(KIND_OPTIONS.to_string()))]], bases: vec![("options".to_string(), String::new())] }, light.clone(), shared.clone());
     let exits: Vec<u64> = CLI_EXITS.iter().map(|a| a.load(Ordering::Relaxed)).collect();
